@@ -345,7 +345,22 @@ impl SpeedLimitTrainSim {
                             && self.state.speed != si::Velocity::ZERO)
                 )
             );
+            let speed_prev = self.state.speed;
             self.step()?;
+            // A train that stood still for a whole step while told to keep standing still
+            // (held by its brakes or by the resistance) cannot change its state any more:
+            // without this check the loop would never end.
+            ensure!(
+                !(speed_prev == si::Velocity::ZERO
+                    && self.state.speed == si::Velocity::ZERO
+                    && self.state.speed_target == si::Velocity::ZERO
+                    && self.state.offset < self.path_tpc.offset_end() - 1000.0 * uc::FT),
+                "{}\nTrain {} has stopped at offset {:?}, short of the end of its path at {:?}, and its target speed is zero: it cannot reach its destination",
+                format_dbg!(),
+                self.train_id,
+                self.state.offset,
+                self.path_tpc.offset_end()
+            );
         }
         Ok(())
     }
